@@ -69,14 +69,15 @@ theorem close_sites_known :
     siteTable "offsetTrackingWriter.ReadFrom:io.Copy#1" = true := by decide
 
 /-- `no_silent_loss` for the extracted table: any plan whose operations sit at extracted sites -/
-theorem no_silent_loss_extracted (f : Fault) (k : Nat) (hk : f.k = some k) (cap : Option Nat)
+theorem no_silent_loss_extracted (f : Fault) (k : Nat) (hk : f.k = some k) (hone : f.oneshot = false)
+    (cap : Option Nat)
     (calls : List (List Op)) (pre : List Op) (fs : String)
     (hsites : ∀ c ∈ calls ++ [pre ++ [Op.flushBuf fs]], ∀ op ∈ c,
       (∃ s ∈ writeSites, s.name = op.site) ∨ ∃ id p, op = Op.store id p)
     (htotal : k < (planBytes (calls ++ [pre ++ [Op.flushBuf fs]])).length) :
     ∃ r ∈ (runCalls (faultSink f) siteTable (initW false cap) (calls ++ [pre ++ [Op.flushBuf fs]])).2,
       r = true := by
-  refine C14.no_silent_loss_fault f k hk siteTable cap calls pre fs ?_ htotal
+  refine C14.no_silent_loss_fault f k hk hone siteTable cap calls pre fs ?_ htotal
   intro c hc op hop
   cases hsites c hc op hop with
   | inr h => exact Or.inr h
@@ -84,7 +85,7 @@ theorem no_silent_loss_extracted (f : Fault) (k : Nat) (hk : f.k = some k) (cap 
     obtain ⟨s, hs, hn⟩ := h
     exact Or.inl (by rw [← hn]; exact siteTable_sound s hs)
 
-example : (runCalls (faultSink ⟨some 5, true, true⟩) siteTable (initW false (some 4))
+example : (runCalls (faultSink ⟨some 5, true, true, false⟩) siteTable (initW false (some 4))
     [[Op.store 0 [1, 2, 3]],
      closeSeq magicPAR1 [Op.drain "writer.writeRowGroup:io.Copy#1" 0 (some 2)] [] [[9]]
        "writer.close:w.buffer.Flush#1"]).2 = [false, true] := by decide
